@@ -1227,18 +1227,24 @@ class SpectrumResult:
                 elif name == "Hyx":
                     val = np.conj(self.Hxy)
                 elif name == "coh":
-                    val = np.divide(
-                        np.abs(self._data["XY"]) ** 2,
-                        self._data["XX"] * self._data["YY"],
-                        out=np.zeros_like(self._data["XX"]),
-                        where=(self._data["XX"] != 0) & (self._data["YY"] != 0),
-                    )
+                    # Normalise by sqrt(XX)*sqrt(YY): the product XX*YY underflows to zero
+                    # for small-amplitude data and turned the ratio into 0/0 = NaN
+                    den = np.sqrt(self._data["XX"]) * np.sqrt(self._data["YY"])
+                    val = np.abs(
+                        np.divide(
+                            self._data["XY"],
+                            den,
+                            out=np.zeros_like(self._data["XX"], dtype=complex),
+                            where=(den != 0),
+                        )
+                    ) ** 2
                 elif name == "ccoh":
+                    den = np.sqrt(self._data["XX"]) * np.sqrt(self._data["YY"])
                     val = np.divide(
                         self._data["XY"],
-                        np.sqrt(self._data["XX"] * self._data["YY"]),
+                        den,
                         out=np.zeros_like(self._data["XX"], dtype=complex),
-                        where=(self._data["XX"] != 0) & (self._data["YY"] != 0),
+                        where=(den != 0),
                     )
                 elif name == "cs":
                     val = self.csd * self.ENBW
